@@ -20,6 +20,12 @@ pub struct OrigRun {
     /// per dialect: Some(outcome) when the original is in the domain under that dialect
     pub lua51: Option<Outcome>,
     pub luau: Option<Outcome>,
+    /// dialect-dependent operations performed by the original's Luau run (see
+    /// `luaref::take_dialect_events`)
+    pub luau_dialect_events: [u64; 2],
+    /// the property claims the output is plain Lua (C06): when the output is Lua 5.1 text and the
+    /// original does nothing dialect-dependent, the output is also run as Lua 5.1
+    pub lua51_target: bool,
 }
 
 pub fn cfg(d: Dialect) -> Config {
@@ -41,10 +47,12 @@ pub fn emits(o: &Outcome) -> usize {
 pub fn run_original(text: &str, make_cfg: &dyn Fn(Dialect) -> Config) -> Result<OrigRun, String> {
     let p_luau = luasyn::parse(text, Mode::Luau).map_err(|e| format!("harness: generated program does not parse: {} at line {}", e.msg, e.line))?;
     let p51 = luasyn::parse(text, Mode::Lua51).ok();
+    luaref::take_dialect_events();
     let luau_out = luaref::run(&p_luau.block, &make_cfg(Dialect::Luau));
+    let luau_dialect_events = luaref::take_dialect_events();
     let lua51_out = p51.as_ref().map(|p| luaref::run(&p.block, &make_cfg(Dialect::Lua51)));
     let luau_only = p51.is_none();
-    let mut r = OrigRun { luau_only, lua51: None, luau: None };
+    let mut r = OrigRun { luau_only, lua51: None, luau: None, luau_dialect_events, lua51_target: false };
     if in_domain(&luau_out) {
         r.luau = Some(luau_out);
     }
@@ -110,12 +118,29 @@ pub fn compare(orig: &OrigRun, transformed: &str, make_cfg: &dyn Fn(Dialect) -> 
     let mut dialects = 0;
     let mut n_emits = 0;
     if let Some(o) = &orig.luau {
+        luaref::take_dialect_events();
         let t = luaref::run(&t_luau.block, &make_cfg(Dialect::Luau));
+        let t_events = luaref::take_dialect_events();
         if &t != o {
             return Verdict::Differs(format!("behaviour differs under the Luau dialect\n{}", first_difference(o, &t)));
         }
         dialects += 1;
         n_emits = emits(o);
+        // plain-Lua target: the original (Luau syntax) did nothing whose result depends on the
+        // dialect, the output is Lua 5.1 text and does not use the Luau-only `%*` (the documented
+        // `tostring` strategy of remove_interpolated_string): run it as Lua 5.1 as well
+        if orig.lua51_target && orig.luau_only && orig.luau_dialect_events == [0, 0] && t_events[1] == 0 {
+            if let Ok(t51) = luasyn::parse(transformed, Mode::Lua51) {
+                let t = luaref::run(&t51.block, &make_cfg(Dialect::Lua51));
+                if &t != o {
+                    return Verdict::Differs(format!(
+                        "the lowered program is Lua 5.1 text but behaves differently when run as Lua 5.1 (the original performs no dialect-dependent operation)\n{}",
+                        first_difference(o, &t)
+                    ));
+                }
+                dialects += 1;
+            }
+        }
     }
     if let Some(o) = &orig.lua51 {
         // the original is plain 5.1 and ran there; the output must be 5.1 as well to be compared
